@@ -381,7 +381,46 @@ fn run_op(tx: &mut Transaction, op: &Value) -> Value {
             match AES::encrypt(&key, &iv, &msg, algo) {
                 Ok(ct) => {
                     let back = AES::decrypt(&key, &iv, &ct, algo2);
-                    json!({ "ok": { "matches_reference": ct == reference, "roundtrip": matches!(back, Ok(ref m) if *m == msg) } })
+                    // decryption of corrupted ciphertexts must agree (value or rejection) with the reference implementation
+                    let name = op["algo"].as_str().unwrap();
+                    let mut corrupt_agrees = true;
+                    for pos in (0..ct.len()).filter(|p| *p < 48 || *p + 48 >= ct.len()) {
+                        for bit in [1u8, 0x80] {
+                            let mut t = ct.clone();
+                            t[pos] ^= bit;
+                            let want: Option<Vec<u8>> = match name {
+                                "AES128_CBC" => Cbc::<Aes128, Pkcs7>::new_from_slices(&key, &iv).unwrap().decrypt_vec(&t).ok(),
+                                "AES256_CBC" => Cbc::<Aes256, Pkcs7>::new_from_slices(&key, &iv).unwrap().decrypt_vec(&t).ok(),
+                                "AES128_CTR" => {
+                                    let mut d = t.clone();
+                                    Aes128Ctr::new_from_slices(&key, &iv).unwrap().apply_keystream(&mut d);
+                                    Some(d)
+                                }
+                                _ => {
+                                    let mut d = t.clone();
+                                    Aes256Ctr::new_from_slices(&key, &iv).unwrap().apply_keystream(&mut d);
+                                    Some(d)
+                                }
+                            };
+                            let a3 = match name {
+                                "AES128_CBC" => AESAlgorithms::AES128_CBC,
+                                "AES256_CBC" => AESAlgorithms::AES256_CBC,
+                                "AES128_CTR" => AESAlgorithms::AES128_CTR,
+                                _ => AESAlgorithms::AES256_CTR,
+                            };
+                            if AES::decrypt(&key, &iv, &t, a3).ok() != want {
+                                corrupt_agrees = false;
+                            }
+                        }
+                    }
+                    // truncated ciphertext (CBC: not a block multiple) must be rejected
+                    if name.ends_with("CBC") && ct.len() > 1 {
+                        let a4 = if name == "AES128_CBC" { AESAlgorithms::AES128_CBC } else { AESAlgorithms::AES256_CBC };
+                        if AES::decrypt(&key, &iv, &ct[..ct.len() - 1], a4).is_ok() {
+                            corrupt_agrees = false;
+                        }
+                    }
+                    json!({ "ok": { "matches_reference": ct == reference, "roundtrip": matches!(back, Ok(ref m) if *m == msg), "corrupted_ciphertexts_agree_with_reference": corrupt_agrees } })
                 }
                 Err(e) => json!({ "err": e.to_string() }),
             }
@@ -835,6 +874,25 @@ fn run_op(tx: &mut Transaction, op: &Value) -> Value {
                     Err(e) => json!({ "err": e.to_string() }),
                 },
             }
+        }
+        "interp_step_vs_run" => {
+            // stepping to the end vs run() on the same script: same outcome and final stacks
+            let script = Script::from_bytes(&hx(&op["script"])).expect("script must parse");
+            let mut a = Interpreter::from_script(&script);
+            let ra = a.run().is_ok();
+            let mut b = Interpreter::from_script(&script);
+            let mut rb = true;
+            let mut steps = 0;
+            while let Some(r) = b.next() {
+                steps += 1;
+                if r.is_err() || steps > 10000 {
+                    rb = false;
+                    break;
+                }
+            }
+            let (sa, sb) = (a.state(), b.state());
+            let same = ra == rb && sa.stack == sb.stack && sa.alt_stack == sb.alt_stack;
+            json!({ "ok": { "same": same } })
         }
         "hash" => {
             let data = hx(&op["input"]);
